@@ -456,7 +456,12 @@ TGPTrainSet ==
                  "EXT.refit_spacing")
         \cup Chk(Ev.nunlogged = 0 /\ Ev.nvalmis = 0, "C15.train_is_logged")
         \cup Chk(Ev.s2ok /\ Ev.s2lenok, "C15.s2_is_variance")
-        \cup Chk(Ev.allused, "C15.init_uses_all_logged"))
+        \cup Chk(Ev.allused, "C15.init_uses_all_logged")
+        \* the neighbourhood is centred on the current incumbent (poll, search); the noisy search step also
+        \* fits a tentative GP around the point it has just evaluated
+        \cup Chk((Ev.site = "local:poll" => Ev.centre = "inc")
+                 /\ (Ev.site = "local:search" => Ev.centre \in {"inc", "lasteval"}),
+                 "C15.train_centre_is_incumbent"))
 
 TNeighbors ==
   /\ IsEv("Neighbors")
@@ -593,8 +598,10 @@ TCrash ==
          exptype == IF s.injected = "exception" THEN "InjectedTargetError"
                     ELSE IF s.injected = "exception2" THEN "InjectedTargetError2" ELSE "ValueError"
      IN Step([s EXCEPT !.phase = "crashed", !.ended = "crash"],
-             Chk(inj \/ Ev.type = "NonProgress", "C09.no_crash")
+             Chk(inj \/ Ev.type \in {"NonProgress", "RunTimeout"}, "C09.no_crash")
         \cup Chk(Ev.type # "NonProgress", "C03.non_progress_bounded")
+        \* the per-run watchdog fired: optimize() did not return within the wall-clock limit
+        \cup Chk(Ev.type # "RunTimeout", "C03.run_terminates")
         \cup Chk(inj => Ev.type = exptype,
                  IF s.injected \in {"exception", "exception2"} THEN "C10.same_exception_type"
                  ELSE "C10.invalid_value_is_valueerror")
